@@ -211,12 +211,66 @@ def orphan_job(arg):
     return rep
 
 
+def dep_change_job(arg):
+    """Full evaluation, dry run, then a dependency of the evaluated function changes while the function object itself
+    stays the same (a module variable is re-assigned in place, or only the callee's module is rewritten and reloaded),
+    then a full evaluation: it must return what plain execution returns, as if the dry run had not happened."""
+    stages, how, store_kind, idx = arg
+    rep = core.Report("C15")
+    rep.evaluations = 1
+    p0 = progs.base_program("c15d%d" % idx, import_form="import_mod_as")
+    ids = p0["_ids"]
+    vid = gen.add_var(p0, ids["leaf"], "V_DEP", "int")
+    p0["order"][ids["leaf"]].remove(("var", vid))
+    p0["order"][ids["leaf"]].insert(0, ("var", vid))
+    p0["fns"][ids["h2"]]["reads"].append([vid, "bare"])
+    if how == "mutate":
+        p1, _ = gen.e_set_var(p0, vid)
+    else:
+        p1, _ = gen.e_set_const(p0, ids["h2"])
+    leafmod = gen.modname(p0, ids["leaf"])
+    change = {"how": "none", "mutate": [(leafmod, "V_DEP", p1["vars"][vid]["value"])]} if how == "mutate" else {"write": gen.render(p1), "how": "reload", "modules": [leafmod]}
+    case = {"dep_change": True, "stages": stages, "how": how, "store": store_kind, "idx": idx}
+    desc = "full run, dry run with stages=%r, then %s, then a full run (store %s)" % (stages, "a module variable re-assigned in place" if how == "mutate" else "only the callee's module rewritten and reloaded", store_kind)
+    with core.Scratch("vp_c15d_") as td:
+        root = os.path.join(td, "code")
+        os.makedirs(root)
+        steps = [{"write": gen.render(p0), "how": "import", "modules": gen.import_order(p0), "entry": _entry(p0)},
+                 {"how": "none", "entry": _entry(p0, {"dds_stages": stages})},
+                 dict(change, entry=_entry(p0), post_loads=sorted(gen.kept_nodes(p0)))]
+        o = core.fork_call(run_segment, {"mode": "impl", "root": root, "accept": [p0["pkg"]], "steps": steps, "store": {"kind": store_kind, "dir": os.path.join(td, "store")}}, timeout=300)
+        rsteps = [dict(st) for st in steps]
+        rsteps[1] = {"how": "none"}
+        ref = core.fork_call(run_segment, {"mode": "ref", "root": os.path.join(td, "code"), "accept": [], "steps": rsteps}, timeout=300)
+    if isinstance(o, core.JobFailed) or isinstance(ref, core.JobFailed):
+        rep.inconclusive.append("dep-change worker failed")
+        return rep
+    for x in o["steps"] + ref["steps"]:
+        if "setup_error" in x:
+            rep.inconclusive.append("setup error: %s" % x["setup_error"][-300:])
+            return rep
+    a0, a2, r0, r2 = o["steps"][0]["result"], o["steps"][2]["result"], ref["steps"][0]["result"], ref["steps"][2]["result"]
+    if r0[0] != "ok" or r2[0] != "ok" or r0[1] == r2[1]:
+        rep.inconclusive.append("reference does not distinguish the two versions")
+        return rep
+    rep.count("dependency_changes_after_dry_run")
+    if o["steps"][1]["log"] or o["steps"][1]["stored"] or o["steps"][1]["sync_begun"]:
+        rep.violate("%s: the dry run ran user code or wrote to the store" % desc, case, mechanism="dry-run-ran-user-code")
+    if a0[0] != "ok" or pickle.loads(a0[1]) != pickle.loads(r0[1]):
+        rep.violate("%s: first full run returned %s" % (desc, a0[2][:100] if a0[0] == "ok" else a0[1:3]), case, mechanism="followup-wrong-value")
+    elif a2[0] != "ok" or pickle.loads(a2[1]) != pickle.loads(r2[1]):
+        rep.violate("%s: the full run after the change returned %s, plain execution returns %s" % (desc, a2[2][:100] if a2[0] == "ok" else a2[1:3], r2[2][:100]), case, mechanism="followup-wrong-value")
+    else:
+        rep.nontriv(("c15dep", repr(stages), how, store_kind))
+    return rep
+
+
 def run(tier, seed):
     rep = core.Report("C15")
     rng = core.rng_for(seed, "c15")
     rep.rule = (
         "programs (matrix skeletons in 4 layouts + random DAG programs) x stage lists = every prefix of the stage order (length 0-5) spelled lower / upper / capitalised / as enum members / mixed "
-        "x stores memory, local, local+cache x fresh or populated store (full run of v0, then restricted run of an edited v1) x follow-up in the same or a new process; plus dry runs on a local store whose blobs lost their metadata files (the state a killed writer leaves): directory tree unchanged. "
+        "x stores memory, local, local+cache x fresh or populated store (full run of v0, then restricted run of an edited v1) x follow-up in the same or a new process; plus dry runs on a local store whose blobs lost their metadata files (the state a killed writer leaves): directory tree unchanged; and full run -> dry run -> a dependency changes under the same function object (variable re-assigned in place / only the callee's module reloaded) -> full run. "
         "distinct_nontrivial = distinct (program, stage list, store, populated) cases whose restricted run and follow-up full run were both observed."
     )
     programs = []
@@ -246,8 +300,16 @@ def run(tier, seed):
             vs = stage_variants(k, rng)
             for store_kind in ("local", "local_lru"):
                 ojobs.append((p0, vs[(pi + k) % len(vs)], k, store_kind, (pi + k) % 2 == 0))
-    results = core.fork_map(lambda j: orphan_job(j[1]) if j[0] == "o" else case_job(j[1]), [("c", j) for j in jobs] + [("o", j) for j in ojobs], timeout=900)
-    for j, r in zip(jobs + [None] * len(ojobs), results):
+    djobs = []
+    for k in (1, 2):
+        for vi, stages in enumerate(stage_variants(k, rng)[:3]):
+            for how in ("mutate", "reload_callee_module"):
+                for store_kind in ("local", "memory", "local_lru"):
+                    if tier == "quick" and (k + vi + len(how) + len(store_kind)) % 2:
+                        continue
+                    djobs.append((stages, how, store_kind, len(djobs)))
+    results = core.fork_map(lambda j: {"o": orphan_job, "c": case_job, "d": dep_change_job}[j[0]](j[1]), [("c", j) for j in jobs] + [("o", j) for j in ojobs] + [("d", j) for j in djobs], timeout=900)
+    for j, r in zip(jobs + [None] * (len(ojobs) + len(djobs)), results):
         if isinstance(r, core.JobFailed):
             rep.inconclusive.append("case: %r" % (r,))
             continue
@@ -266,6 +328,9 @@ def run(tier, seed):
 def replay(payload):
     rep = core.Report("C15")
     c = payload["case"]
+    if c.get("dep_change"):
+        rep.merge(dep_change_job((c["stages"], c["how"], c["store"], c["idx"])))
+        return rep
     if c.get("orphan"):
         rep.merge(orphan_job((c["program"], c["stages"], len(c["stages"]), c["store"], c["same_process"])))
         return rep
